@@ -3,6 +3,9 @@ ROOT = {"dir": "", "pkgname": "ipfscluster"}
 SPEC = {
     "go": [dict(ROOT, files=["root/rig_test.go", "root/rig_c04_test.go", "root/c04_test.go"], test="TestVerifC04",
                 n_quick=1500, n_thorough=12000, shards_quick=6, shards_thorough=16)],
+    "gen": ["C04Guards"],
+    "force": ["Proofs/C04_Guards.v"],
+    "diag": True,
     "rule": "generated: histories of 1..12 (+3) Pin / PinPath / PinUpdate / Unpin / UnpinPath / RPC-Pin calls over 7 CIDs; options "
             "re-used per CID with single-field changes (metadata key added / removed / changed, name, mode, factors, expiry, origins, "
             "user allocations, update source); 6 peers x metric tables switched during the history; default factors incl. -1 and invalid; "
